@@ -132,6 +132,200 @@ def unit_pretty():
 
 
 # ---------------------------------------------------------------------------------------------
+# proved part: stream level by step refinement (each loop of the printer: one iteration from an arbitrary state)
+
+
+class Tok:
+    """opaque piece of bytes (the encoding of one list element)"""
+
+    def __init__(self, name):
+        self.name = name
+
+
+class AbsBuf:
+    """abstract byte string: a sequence of opaque pieces; supports only concatenation"""
+
+    def __init__(self, parts):
+        self.parts = list(parts)
+
+    def __add__(self, other):
+        if isinstance(other, Tok):
+            return AbsBuf(self.parts + [other])
+        if isinstance(other, AbsBuf):
+            return AbsBuf(self.parts + other.parts)
+        return NotImplemented
+
+    def translate(self, table):
+        return AbsBuf([("printable", tuple(self.parts))])
+
+    def decode(self):
+        return self
+
+
+class FakeVal:
+    def __init__(self, tok):
+        self.tok = tok
+
+    def to_bytes(self):
+        return self.tok
+
+
+def _kinds():
+    """representative next events for a list walk: (name, event-or-None, is child of the parent?)"""
+    A = alphabet()
+    ME, PN, root = A["MarshalEvent"], A["PathNode"], A["root"]
+    return A, ME, PN, root
+
+
+def unit_list_steps():
+    from pyvc.explore import Ctx
+    from pyvc.interp import PathEnd
+    from pyvc.loops import OneStepLoop
+
+    Pm = P()
+    u = UnitResult("C14/STEPS/list")
+    u.functions = ["tpmstream.io.pretty.unmarshal:pretty_list_elems"]
+    A, ME, PN, root = _kinds()
+
+    def ob(name, ok, detail=""):
+        u.obligations.append({"name": f"C14/STEPS/{name}", "kind": "step", "site": "pretty/unmarshal.py:pretty_list_elems", "status": "proved" if ok else "refuted", "backend": "evaluation", "seconds": 0, "model": None, "detail": detail})
+
+    def run_case(parent, loop_ord, state, nxt):
+        ctx = Ctx()
+        rows = []
+
+        def pretty_stub(I, args, kwargs):
+            from pyvc.interp import IGen
+
+            def gen():
+                yield ("ROW", args[0])
+            return IGen(gen(), "pretty")
+            yield
+
+        def format_stub(I, args, kwargs):
+            return ("BUFROW", args[0], args[1], args[2], args[3])
+            yield
+
+        it = iter([nxt] if nxt is not None else [])
+        I = Interp(ctx, stubs={Pm.pretty: pretty_stub, Pm.format: format_stub}, loop_specs={("pretty_list_elems", loop_ord): OneStepLoop(state)})
+        g = run_sync(I.call(Pm.pretty_list_elems, (parent, it), {}))
+        ys = []
+        try:
+            while True:
+                ys.append(g.g.send(None))
+        except StopIteration as e:
+            return ys, ("return", e.value), None
+        except PathEnd:
+            return ys, ("next-iteration",), ctx.ghost["step"]["locals"]
+        except PyExc as e:
+            return ys, ("raise", repr(e.exc)), None
+
+    # ---- byte buffers
+    parent = ME(root / PN("buf"), list[A["BYTE"]], ...)
+    B = AbsBuf([Tok("earlier")])
+    t = Tok("this")
+    child = ME(root / PN("buf", index=3), A["BYTE"], FakeVal(t))
+    info = A["WarningEvent"](error=A["err"]("w"))
+    others = {"struct": ME(root / PN("next"), A["Command"], ...), "primitive": ME(root / PN("next"), A["UINT16"], A["UINT16"](7)),
+              "list-parent": ME(root / PN("next"), list[A["TPM_CC"]], ...), "deeper-same-name": ME(root / PN("x") / PN("buf"), A["BYTE"], FakeVal(Tok("no")))}
+    ys, out, loc = run_case(parent, 0, {"child_buffer": B}, child)
+    ob("buffer/child-is-appended-and-nothing-printed", ys == [] and out == ("next-iteration",) and isinstance(loc.get("child_buffer"), AbsBuf) and loc["child_buffer"].parts == B.parts + [t], f"{ys} {out}")
+    ys, out, loc = run_case(parent, 0, {"child_buffer": B}, info)
+    ob("buffer/warning-between-elements-is-one-row-and-the-buffer-is-kept", ys == [("ROW", info)] and out == ("next-iteration",) and loc.get("child_buffer") is B, f"{ys} {out}")
+    ys, out, loc = run_case(parent, 0, {"child_buffer": B}, None)
+    okrow = len(ys) == 1 and ys[0][0] == "BUFROW" and ys[0][1] is parent.type and ys[0][2] == parent.path and ys[0][3] is B
+    ob("buffer/end-of-stream-prints-the-one-buffer-row-with-all-collected-bytes", okrow and out == ("return", None), f"{ys} {out}")
+    for nm, ev in others.items():
+        ys, out, loc = run_case(parent, 0, {"child_buffer": B}, ev)
+        okrow = len(ys) == 1 and ys[0][0] == "BUFROW" and ys[0][2] == parent.path and ys[0][3] is B
+        ob(f"buffer/next-{nm}-event-ends-the-buffer-and-is-handed-back", okrow and out[0] == "return" and out[1] is ev, f"{ys} {out}")
+    # ---- other lists
+    parent = ME(root / PN("lst"), list[A["TPM_CC"]], ...)
+    child = ME(root / PN("lst", index=2), A["TPM_CC"], A["TPM_CC"](0x17B))
+    for empty in (True, False):
+        tag = "empty" if empty else "nonempty"
+        ys, out, loc = run_case(parent, 1, {"is_empty": empty}, child)
+        ob(f"list/{tag}/element-is-one-row", ys == [("ROW", child)] and out == ("next-iteration",) and loc.get("is_empty") is False, f"{ys} {out}")
+        ys, out, loc = run_case(parent, 1, {"is_empty": empty}, info)
+        ob(f"list/{tag}/warning-is-one-row", ys == [("ROW", info)] and out == ("next-iteration",) and loc.get("is_empty") is empty, f"{ys} {out}")
+        ys, out, loc = run_case(parent, 1, {"is_empty": empty}, None)
+        ob(f"list/{tag}/end-of-stream", ys == ([("ROW", parent)] if empty else []) and out == ("return", None), f"{ys} {out}")
+        for nm, ev in others.items():
+            ys, out, loc = run_case(parent, 1, {"is_empty": empty}, ev)
+            ob(f"list/{tag}/next-{nm}-event-is-handed-back", ys == ([("ROW", parent)] if empty else []) and out[0] == "return" and out[1] is ev, f"{ys} {out}")
+    return u
+
+
+def unit_main_steps():
+    from pyvc.explore import Ctx
+    from pyvc.interp import PathEnd, IGen
+    from pyvc.loops import OneStepLoop
+
+    Pm = P()
+    u = UnitResult("C14/STEPS/main")
+    u.functions = ["tpmstream.io.pretty.unmarshal:unmarshal"]
+    A, ME, PN, root = _kinds()
+
+    def ob(name, ok, detail=""):
+        u.obligations.append({"name": f"C14/STEPS/{name}", "kind": "step", "site": "pretty/unmarshal.py:unmarshal", "status": "proved" if ok else "refuted", "backend": "evaluation", "seconds": 0, "model": None, "detail": detail})
+
+    struct = ME(root / PN("s"), A["Command"], ...)
+    prim = ME(root / PN("p"), A["UINT16"], A["UINT16"](7))
+    attr = ME(root / PN("a"), A["TPMA_SESSION"], A["TPMA_SESSION"](0x61))
+    info = A["WarningEvent"](error=A["err"]("w"))
+    lists = {"byte-buffer": ME(root / PN("b"), list[A["BYTE"]], ...), "list": ME(root / PN("l"), list[A["TPM_CC"]], ...), "attribute-list": ME(root / PN("la"), list[A["TPMA_CC"]], ...)}
+
+    def run_case(ev, handed_back="none"):
+        ctx = Ctx()
+        calls = []
+        src = iter([])
+
+        def mk(name):
+            def st(I, args, kwargs):
+                def gen():
+                    calls.append((name, args))
+                    yield (name, args[0])
+                    if name == "LIST":
+                        return {"none": None, "struct": struct, "attr": attr}[handed_back]
+                return IGen(gen(), name)
+                yield
+            return st
+
+        I = Interp(ctx, stubs={Pm.pretty: mk("ROW"), Pm.pretty_attrs: mk("BITS"), Pm.pretty_list_elems: mk("LIST")}, loop_specs={("unmarshal", 0): OneStepLoop({"event": ev})})
+        g = run_sync(I.call(Pm.unmarshal, (src,), {}))
+        ys = []
+        try:
+            while True:
+                ys.append(g.g.send(None))
+        except StopIteration as e:
+            return ys, "return", calls
+        except PathEnd:
+            return ys, "next-iteration", calls
+        except PyExc as e:
+            return ys, f"raise {e.exc!r}", calls
+
+    ys, out, _ = run_case(struct)
+    ob("main/structure-event-is-one-row", ys == [("ROW", struct)] and out == "next-iteration", f"{ys} {out}")
+    ys, out, _ = run_case(prim)
+    ob("main/primitive-event-is-one-row", ys == [("ROW", prim)] and out == "next-iteration", f"{ys} {out}")
+    ys, out, _ = run_case(attr)
+    ob("main/attribute-word-is-one-row-plus-its-bit-rows", ys == [("ROW", attr), ("BITS", attr)] and out == "next-iteration", f"{ys} {out}")
+    ys, out, _ = run_case(info)
+    ob("main/warning-is-one-row", ys == [("ROW", info)] and out == "next-iteration", f"{ys} {out}")
+    for nm, lp in lists.items():
+        ys, out, calls = run_case(lp, "none")
+        ok = ys == [("LIST", lp)] and out == "return" and len(calls) == 1 and calls[0][1][0] is lp
+        ob(f"main/{nm}-is-folded-and-the-stream-may-end-inside-it", ok, f"{ys} {out}")
+        ok_iter = len(calls) == 1 and len(calls[0][1]) == 2
+        ob(f"main/{nm}-elements-come-from-the-same-iterator", ok_iter, "")
+        ys, out, calls = run_case(lp, "struct")
+        ob(f"main/{nm}-then-the-event-handed-back-gets-its-row", ys == [("LIST", lp), ("ROW", struct)] and out == "next-iteration", f"{ys} {out}")
+        ys, out, calls = run_case(lp, "attr")
+        ob(f"main/{nm}-then-an-attribute-word-handed-back-gets-row-and-bit-rows", ys == [("LIST", lp), ("ROW", attr), ("BITS", attr)] and out == "next-iteration", f"{ys} {out}")
+    return u
+
+
+# ---------------------------------------------------------------------------------------------
 # bounded part: streams
 
 
@@ -408,7 +602,7 @@ def run(tier, seed, only=None):
     rep.trusted_base = ["pyvc's reading of Python", "ANSI colour codes of colorama delimit the columns (used to parse real rows)", "the alphabet of event kinds covers every predicate the printer code branches on (is MarshalEvent, is list, element type BYTE, is child of the current parent, has attributes)"]
     rep.assumptions = ["a non-empty non-byte list may or may not get a row for its parent event (it is visible through its elements); an empty one must be shown", "row order rule: a buffer's row stands at the position of its last element; infos between elements may precede it"]
     rep.replayer = replayer
-    jobs = [(unit_format, ()), (unit_pretty, ())]
+    jobs = [(unit_format, ()), (unit_pretty, ()), (unit_list_steps, ()), (unit_main_steps, ())]
     jobs += [(c17.unit_rows, (t.__name__,)) for t in c17.tpma_types()]
     n = 7 if tier == "thorough" else 5
     parts = 16
